@@ -45,6 +45,10 @@ func scale(tier string, quick, thorough int) int {
 
 // Main is the entry point of the generated main package of a check run.
 func Main() {
+	if len(os.Args) > 1 && os.Args[1] == "-deqchild" {
+		StaticDeqChild(os.Args[2:])
+		return
+	}
 	prop := flag.String("prop", "", "property id")
 	tier := flag.String("tier", "quick", "quick|thorough")
 	seed := flag.Uint64("seed", 1, "VERIF_SEED")
